@@ -342,11 +342,45 @@ AT_ENUM_PREFIX = {"DW_AT_language": "DW_LANG_", "DW_AT_inline": "DW_INL_", "DW_A
                   "DW_AT_defaulted": "DW_DEFAULTED_"}
 
 
+_THROWERS = set()
+
+
+def _throwers(prog):
+    """repository functions that never return normally: no `return`, and the last statement is a throw (or a call of
+    another such function).  A dispatch arm that calls one of them reports an error just as an inline `throw` does."""
+    _THROWERS.clear()
+    changed = True
+    while changed:
+        changed = False
+        for fid, f in prog.funcs.items():
+            body = f.get("body")
+            if fid in _THROWERS or not body or not body.get("s"):
+                continue
+            if any(x.get("k") == "return" for x in walk_nolambda(body)):
+                continue
+            if _stmt_throws(body["s"][-1]):
+                _THROWERS.add(fid)
+                changed = True
+    return _THROWERS
+
+
+def _stmt_throws(st):
+    st = unwrap(st) if isinstance(st, dict) else st
+    if not isinstance(st, dict):
+        return False
+    if st.get("k") == "throw":
+        return True
+    if st.get("k") == "call" and (st.get("fn") == "abort" or st.get("fid") in _THROWERS):
+        return True
+    return False
+
+
 def _classify_decoder(stmts):
     """what a case group of at_value / handle_encoding_data does"""
     fns = [c.get("fn") for s in stmts for c in calls(s)]
     mk = [c.get("f", "") for s in stmts for c in calls(s) if c.get("f", "").startswith("std::make_unique<")]
-    has_throw = any(x.get("k") == "throw" for s in stmts for x in walk(s))
+    has_throw = any(x.get("k") == "throw" for s in stmts for x in walk(s)) or \
+        any(c.get("fid") in _THROWERS for s in stmts for c in calls(s))
     strs = [x["v"] for s in stmts for x in walk(s) if x.get("k") == "str"]
     if "atval_signed" in fns:
         return "signed"
@@ -397,6 +431,7 @@ def f1(prog):
     from r_scope import switch_groups
     from zw import is_null_stack_expr
     inst, findings = [], []
+    _throwers(prog)
     for q, guard in (("at_value", None), ("(anonymous namespace)::handle_at_dependent_value", None)):
         f = prog.func_opt(q)
         if f is None:
@@ -412,7 +447,7 @@ def f1(prog):
                 if cls not in ("error", "never-seen"):
                     probs.append("the `default` label of %s decodes unknown codes as `%s` instead of reporting them" % (q, cls))
         last = f["body"]["s"][-1]
-        ends_in_throw = last.get("k") == "throw" or (last.get("k") == "call" and last.get("fn") == "abort")
+        ends_in_throw = _stmt_throws(last)
         if not ends_in_throw:
             probs.append("%s no longer ends in a throw: a code that matches no case falls off into `%s`" % (q, last.get("k")))
         inst.append((key, {"ends_in_throw": ends_in_throw}))
@@ -434,6 +469,7 @@ def f3(prog):
     from r_scope import switch_groups
     from r_tables import writer_tables, intval, dom_of
     inst, findings = [], []
+    _throwers(prog)
     # forms
     f = prog.func("at_value")
     sw = [x for x in f["body"]["s"] if x.get("k") == "switch"][0]
